@@ -326,7 +326,9 @@ class Layout:
         return "".join(out)
 
     def term(self):
-        t = self.pick([";", "\n", ";\n", "\n\n", " ;", " \n", "; // trailing comment\n", " /* c */ ;"])
+        t = self.pick([";", "\n", ";\n", "\n\n", " ;", " \n", "; // trailing comment\n", " /* c */ ;",
+                       # a remark whose own end of line is what terminates the entry
+                       " // remark\n", "\t// remark; with } punctuation\n", " /* c */ // both\n"])
         self.feat.add("semicolon" if ";" in t else "newline_term")
         return t
 
